@@ -523,8 +523,11 @@ let run_sep (b : backend) (s : Sexp.t) : string =
     let sc = rquery is_alpha_rust b (tables_of !more_parens b) fuel q in
     (match emit_params ftext b sc with
      | Panic -> "PANIC"
-     | Ok _ -> Printf.sprintf "P%d I%d C%d" (if params_sep ftext b sc then 1 else 0) (if inline_sep ftext b sc then 1 else 0)
-                 (if crate_sep is_alpha_rust ftext b sc then 1 else 0))
+     | Ok _ -> Printf.sprintf "P%d I%d C%d Q%d R%d" (if params_sep ftext b sc then 1 else 0) (if inline_sep ftext b sc then 1 else 0)
+                 (if crate_sep is_alpha_rust ftext b sc then 1 else 0)
+                 (* Q / R: the statement is in the syntactic class query_plain for which the premises are PROVED
+                    (parameterised / inline mode) *)
+                 (if query_plain ftext b false fuel q then 1 else 0) (if query_plain ftext b true fuel q then 1 else 0))
   with Exit -> "PANIC"
 
 (* diagnostic: the first piece (from the end) whose text does not lex alone or whose seam is unsafe *)
